@@ -216,6 +216,11 @@ func c07Geometry(c *fw.Ctx, idx int) {
 	if c.WantSample() && len(data) < 200 && !g.IsEmpty() {
 		c.Sample(map[string]any{"geometry": g.String(), "geojson": string(data)})
 	}
+	if r.Chance(1, 3) {
+		// decoded geometries are the caller's own
+		callerScribbles(c, back)
+		callerScribbles(c, t2)
+	}
 }
 
 // c07Scribble overwrites everything reachable from an encoded Geometry the
